@@ -20,7 +20,7 @@ import pathlib
 from sim import fixtures as fx
 from sim.runner import RunResult
 from sim.storage import SEAM
-from sim.tofuworld import HOSTS, PORTS, TofuWorld, load_cert, read_table, spell
+from sim.tofuworld import HOSTS, HOST_WEIGHTS, NCA, PORTS, TofuWorld, load_cert, read_table, spell
 
 PROPERTY = "C03"
 LEVEL = "exploration"
@@ -38,7 +38,9 @@ PROBES = ["ca_validation_on_as_well", "cert_changed_detected", "unreadable_cert_
           "first_use_pinned", "pinned_match", "import_applied", "revoke_then_refetch", "tofu_off",
           "upload_checked", "ec_cert", "first_use_on_failing_endpoint", "overlapping_first_use", "near_miss_pin_imported", "mixed_case_host_spelling", "server_speaks_first_tls12", "failed_import_in_history",
           "overlapping_ops_different_endpoints", "sql_fault_during_operation",
-          "chain_revisits_an_endpoint", "connection_dropped_after_request_then_certificate_swap", "certificate_changed_between_two_hops_of_one_chain"]
+          "chain_revisits_an_endpoint", "connection_dropped_after_request_then_certificate_swap",
+          "storage_fault_during_trust", "client_used_as_context_manager_in_between",
+          "restart_more_than_a_year_later", "certificate_changed_between_two_hops_of_one_chain"]
 COMPONENTS = {
     "real": ["nauyaca.client.session.GeminiClient (get/upload/delete, redirects)",
              "nauyaca.client.protocol", "nauyaca.security.tofu.TOFUDatabase on a real sqlite file",
@@ -76,11 +78,12 @@ def run_one(ch):
     nops = 1 + ch.choose("nops", 12)
     model = {}
     st = {"hist": [], "changed": 0, "unreadable": 0, "redir": 0, "first": 0, "match": 0,
-          "import": 0, "mutation": 0, "upload": 0, "refetch": 0, "failing": 0, "concurrent": 0, "nearmiss": 0, "mixedcase": 0, "speakfirst": 0, "failedimport": 0, "overlapdiff": 0, "sqlfault": 0, "revisit": 0, "revisit_changed": 0, "dropswap": 0}
+          "import": 0, "mutation": 0, "upload": 0, "refetch": 0, "failing": 0, "concurrent": 0, "nearmiss": 0, "mixedcase": 0, "speakfirst": 0, "failedimport": 0, "overlapdiff": 0, "sqlfault": 0, "revisit": 0, "revisit_changed": 0, "dropswap": 0, "trustfault": 0, "ctxmgr": 0, "yearlater": 0}
     revoked = set()
 
     def endpoint(label):
-        return (HOSTS[ch.choose(label + ".h", 3)], PORTS[ch.choose(label + ".p", 2, [3, 1])])
+        nh = NCA if ca_mode else len(HOSTS)
+        return (HOSTS[ch.choose(label + ".h", nh, HOST_WEIGHTS[:nh])], PORTS[ch.choose(label + ".p", 2, [3, 1])])
 
     def url_of(key, path="/", scheme="gemini"):
         h, p = key
@@ -108,7 +111,25 @@ def run_one(ch):
                               tofu_db_path=pathlib.Path(w.db_path))
         db = client.tofu_db if tofu_on else TOFUDatabase(pathlib.Path(w.db_path))
         for i in range(nops):
-            op = ch.choose("op", 17, [10, 4, 2, 2, 2, 1, 1, 3, 8, 4, 1, 3, 3, 3, 3, 3, 2])
+            op = ch.choose("op", 19, [10, 4, 2, 2, 2, 1, 1, 3, 8, 4, 1, 3, 3, 3, 3, 3, 2, 1, 1])
+            if op == 17:
+                # the client object is used as a context manager in between and used on
+                st["hist"].append("async with client: pass")
+                async with client:
+                    await asyncio.sleep(0)
+                st["ctxmgr"] += 1
+                continue
+            if op == 18:
+                # more than a year passes (virtual wall clock) and the program is restarted:
+                # a new client object on the same store - pins do not expire
+                await asyncio.sleep(400 * 86400.0)
+                client = GeminiClient(timeout=20.0, trust_on_first_use=tofu_on, verify_ssl=ca_mode,
+                                      tofu_db_path=pathlib.Path(w.db_path))
+                db = client.tofu_db if tofu_on else TOFUDatabase(pathlib.Path(w.db_path))
+                st["hist"].append("400 days later: new client object on the same store")
+                st["yearlater"] += 1
+                check_table(st["hist"][-1])
+                continue
             if op in (0, 1, 2):
                 key = endpoint("ep")
                 kind = ["get", "upload", "delete"][op]
@@ -250,8 +271,31 @@ def run_one(ch):
                 key = endpoint("tr")
                 c = ch.pick("trcert", good)
                 st["hist"].append(f"trust {key[0]}:{key[1]} {c}")
-                db.trust(key[0], key[1], load_cert(c))
-                model[key] = fx.fp(c)
+                # explicit (re-)trust, possibly hit by a storage error at a drawn statement:
+                # the pin is then the old one or the new one - never gone
+                SEAM.fired = None
+                if ch.chance("trustfault", 0.25):
+                    SEAM.fault_at = SEAM.tick + 1 + ch.choose("trusttick", 5)
+                    SEAM.fault_kind = "error:" + ch.pick("trusterr", ["database is locked", "disk I/O error"])
+                try:
+                    db.trust(key[0], key[1], load_cert(c))
+                    failed = False
+                except Exception:  # noqa
+                    failed = True
+                SEAM.fault_at = None
+                if SEAM.fired is not None or failed:
+                    st["trustfault"] += 1
+                    st["hist"][-1] += " [storage fault]"
+                    now_pin = read_table(w.db_path).get(key)
+                    if now_pin not in (model.get(key), fx.fp(c)) or (now_pin is None and key in model):
+                        res.violate("C03/pin-lost-by-failed-trust",
+                                    f"trust() of {key[0]}:{key[1]} hit a storage error and left the "
+                                    f"host with pin {now_pin!r} - neither the old nor the new one",
+                                    old=model.get(key), new=fx.fp(c), history=st["hist"][-8:])
+                    model.clear()
+                    model.update(read_table(w.db_path))
+                else:
+                    model[key] = fx.fp(c)
                 st["mutation"] += 1
             elif op == 4:
                 key = endpoint("rv")
@@ -261,7 +305,7 @@ def run_one(ch):
                     revoked.add(key)
                 st["mutation"] += 1
             elif op == 5:
-                h = HOSTS[ch.choose("rvh", 3)]
+                h = HOSTS[ch.choose("rvh", NCA if ca_mode else len(HOSTS))]
                 st["hist"].append(f"revoke_by_hostname {h}")
                 db.revoke_by_hostname(h)
                 for k in [k for k in model if k[0] == h]:
@@ -574,7 +618,7 @@ def run_one(ch):
         os.environ["SSL_CERT_FILE"] = fx.crt(fx.CA_FILE_NAME)
         res.stats["ca_validation_on_as_well"] += 1
     try:
-        w.run(main)
+        w.run(main, horizon=5 * 400 * 86400.0 + 1e6)
     finally:
         if ca_mode:
             if old_ca is None:
@@ -590,6 +634,9 @@ def run_one(ch):
               "sql_fault_during_operation": "sqlfault",
               "chain_revisits_an_endpoint": "revisit",
               "connection_dropped_after_request_then_certificate_swap": "dropswap",
+              "storage_fault_during_trust": "trustfault",
+              "client_used_as_context_manager_in_between": "ctxmgr",
+              "restart_more_than_a_year_later": "yearlater",
               "certificate_changed_between_two_hops_of_one_chain": "revisit_changed"}
     for probe, k in st_map.items():
         if st[k]:
